@@ -54,9 +54,10 @@ class C10(Check):
         rng = np.random.default_rng([seed, 10])
         for i in range(n):
             yield dict(seed=seed * 100003 + i, closed=["left", "right"][i % 2],
-                       edges=str(rng.choice(["linear", "irregular", "narrow", "one_bin"])),
+                       edges=str(rng.choice(["linear", "irregular", "narrow", "one_bin", "many"], p=[0.24, 0.24, 0.24, 0.22, 0.06])),
                        weighted=bool(rng.random() < 0.5),
-                       empty=str(rng.choice(["none", "patch_outside", "bin_empty", "all_outside"], p=[0.5, 0.2, 0.2, 0.1])))
+                       empty=str(rng.choice(["none", "patch_outside", "bin_empty", "all_outside"], p=[0.5, 0.2, 0.2, 0.1]))
+                       if i % 7 else ["patch_on_zmax", "patch_on_zmin"][(i // 14) % 2])
 
     def setup_worker(self):
         warnings.simplefilter("ignore")
@@ -73,7 +74,9 @@ class C10(Check):
             out.append(result(VIOLATED, mechanism=mech, detail=dict(case=case, **detail), nontrivial=False))
 
         nb = 1 if case["edges"] == "one_bin" else int(rng.integers(2, 7))
-        edges = gen.gen_edges(rng, nb, "linear" if case["edges"] == "one_bin" else case["edges"])
+        if case["edges"] == "many":  # more bins than a one-byte bin index can hold
+            nb = int(rng.integers(257, 330))
+        edges = gen.gen_edges(rng, nb, "linear" if case["edges"] in ("one_bin", "many") else case["edges"])
         edges = edges + 0.01  # keep redshifts positive
         closed = case["closed"]
         P = int(rng.integers(1, 5))
@@ -92,6 +95,14 @@ class C10(Check):
             b = int(rng.integers(nb))
             inside = (z >= edges[b]) & (z <= edges[b + 1])
             z[inside] = edges[-1] + 1.0
+        elif case["empty"] == "patch_on_zmax":  # every object of patch 0 at or above zmax, at least one exactly on it
+            m0 = np.flatnonzero(src == 0)
+            z[m0] = edges[-1] + rng.uniform(0.01, 0.1, len(m0))
+            z[m0[: max(1, len(m0) // 4)]] = edges[-1]
+        elif case["empty"] == "patch_on_zmin":
+            m0 = np.flatnonzero(src == 0)
+            z[m0] = edges[0] * rng.uniform(0.3, 0.9, len(m0))
+            z[m0[: max(1, len(m0) // 4)]] = edges[0]
         elif case["empty"] == "all_outside":
             z = np.where(rng.random(n) < 0.5, edges[0] * 0.5, edges[-1] + 1.0)
         w = rng.uniform(0.25, 4.0, n) if case["weighted"] else None
